@@ -112,8 +112,21 @@ def functions(srcdir):
                     o2 = mm.end() - 1; c2 = match_close(src, o2)
                     if mm.group(1) == 'add_alias':
                         aliases.append(rust_str(src[o2+1:c2].strip()))
+                    if mm.group(1) == 'add_example':
+                        ex = {'args': [], 'input': None, 'output': None, 'approx': False}
+                        body = src[o2+1:c2]
+                        for em in re.finditer(r'\.\s*(\w+)\s*\(', body):
+                            eo = em.end() - 1; ec = match_close(body, eo); arg = body[eo+1:ec].strip()
+                            try:
+                                if em.group(1) == 'add_argument': ex['args'].append(rust_str(arg))
+                                elif em.group(1) == 'input': ex['input'] = rust_str(arg)
+                                elif em.group(1) == 'expected_output': ex['output'] = rust_str(arg)
+                                elif em.group(1) == 'more_or_less': ex['approx'] = True
+                                elif em.group(1) in ('validate_output', 'expected_json'): ex['output'] = '?'
+                            except Exception: ex['output'] = '?'
+                        examples.append(ex)
                     i = c2 + 1
-                fns.append({'name': name, 'min': mn, 'max': mx, 'aliases': aliases,
+                fns.append({'name': name, 'min': mn, 'max': mx, 'aliases': aliases, 'examples': examples,
                             'file': os.path.relpath(path, srcdir)})
     return fns
 
